@@ -147,6 +147,22 @@ def shallow_items(oFile):
     return out
 
 
+def map_snapshot(oFile):
+    import copy
+
+    try:
+        return copy.deepcopy(oFile.oTokenMap.dMap)
+    except AttributeError:
+        return None
+
+
+def map_dirty(oFile, msnap):
+    try:
+        return oFile.oTokenMap.dMap != msnap
+    except AttributeError:
+        return False
+
+
 def is_dirty(oFile, snap):
     toks = oFile.lAllObjects
     if len(toks) != len(snap):
@@ -246,6 +262,7 @@ def run_api(desc, root, rec):
             return
         L0, T0 = light_of(oFile), text_of(oFile)
         snap = shallow_items(oFile)
+        msnap = map_snapshot(oFile)
         alone = {}
         reparse = 0
         for r in sorted(real_rules(oRules), key=lambda r: r.unique_id):
@@ -258,14 +275,62 @@ def run_api(desc, root, rec):
                 alone[r.unique_id] = None
                 out["errors"].append(("alone", r.unique_id, type(e).__name__))
             r.violations = []
-            if is_dirty(oFile, snap):
-                out["writers"][r.unique_id] = {"attrs": dirty_attrs(oFile, snap), "text": text_of(oFile) != T0, "class": light_of(oFile) != L0}
+            md = map_dirty(oFile, msnap)
+            if md or is_dirty(oFile, snap):
+                out["writers"][r.unique_id] = {"attrs": (["<token map>"] if md else []) + dirty_attrs(oFile, snap), "text": text_of(oFile) != T0, "class": light_of(oFile) != L0}
                 oFile2, oRules2, _ = S.build()
                 # keep analysing with the remaining rule objects on a fresh file object
                 oFile = oFile2
                 snap = shallow_items(oFile)
+                msnap = map_snapshot(oFile)
                 reparse += 1
+        # The pass above shares one file object (and one rule list) between rules for speed; state
+        # that lives outside the tokens and the token map (a cache hung on the map object, a module
+        # level list, ...) would contaminate it unnoticed.  So the same is done once more in the
+        # opposite order on fresh objects; a rule whose two answers differ is a *suspect* and gets a
+        # reference of its own from a fresh parse and a fresh rule list.
+        oFileB, oRulesB, _ = S.build()
+        snapB, msnapB = shallow_items(oFileB), map_snapshot(oFileB)
+        aloneB = {}
+        for r in sorted(real_rules(oRulesB), key=lambda r: r.unique_id, reverse=True):
+            r.disable = False
+            r.violations = []
+            try:
+                r.analyze(oFileB)
+                aloneB[r.unique_id] = vio(r)
+            except Exception:
+                aloneB[r.unique_id] = None
+            r.violations = []
+            if map_dirty(oFileB, msnapB) or is_dirty(oFileB, snapB):
+                oFileB, _x, _y = S.build()
+                snapB, msnapB = shallow_items(oFileB), map_snapshot(oFileB)
+        suspects = sorted(u for u in alone if alone[u] != aloneB.get(u, alone[u]))
+        for u in suspects[:40]:
+            oF, oR, _ = S.build()
+            for r in oR.rules:
+                if r.unique_id == u:
+                    r.disable = False
+                    r.violations = []
+                    try:
+                        r.analyze(oF)
+                        alone[u] = vio(r)
+                    except Exception:
+                        alone[u] = None
+        out["suspects"] = suspects
         out["alone"] = alone
+        # ---- reference for *dependent* rules (the documented exception): a rule B of sub-phase s may
+        # depend on the rules of the same phase with a smaller sub-phase, and on nothing else.  So
+        # dep[B] = report of B analysed right after exactly those predecessors (the ones the
+        # default configuration enables, in canonical order) on a pristine parse.
+        dep, dep_preds = {}, {}
+        if desc.get("want_dep"):  # ~25 extra parses per file: thorough tier and /verif/corpus files
+            try:
+                dep, dep_preds, dsus = dependent_reference(S)
+                out["dep_suspects"] = dsus
+            except Exception as e:
+                out["errors"].append(("dep-reference", type(e).__name__, str(e)[:120]))
+        out["dep"] = dep
+        out["dep_preds"] = dep_preds
         out["meta"]["reparses"] = reparse
         out["meta"]["text0"], out["meta"]["light0"] = T0, L0
 
@@ -315,6 +380,85 @@ def run_api(desc, root, rec):
     rec.emit("end", {"exit": 0, "exc": None, "trace": [], "mismatch": 0, "policy": None, "fired": [], "skipped": [], "unsimulated": [], "updates": None, "lines": None, "probes": {}})
 
 
+def _run_group(S, phase, sub, order):
+    """Fresh objects, canonical predecessors of (phase, sub), then the group's rules in `order`."""
+    oFile, oRules, _ = S.build()
+    rules = real_rules(oRules)
+    preds = [r for r in rules if int(r.phase) == phase and int(r.subphase) < sub and not r.disable]
+    preds.sort(key=lambda r: int(r.subphase))  # stable: rule-list order inside a sub-phase
+
+    def prime(oF, prs):
+        for r in prs:
+            r.violations = []
+            try:
+                r.analyze(oF)
+            except Exception:
+                pass
+            r.violations = []
+
+    prime(oFile, preds)
+    snap, msnap = shallow_items(oFile), map_snapshot(oFile)
+    group = [r for r in rules if int(r.phase) == phase and int(r.subphase) == sub]
+    group.sort(key=lambda r: r.unique_id, reverse=(order == "rev"))
+    res = {}
+    for r in group:
+        was = r.disable
+        r.disable = False
+        r.violations = []
+        try:
+            r.analyze(oFile)
+            res[r.unique_id] = vio(r)
+        except Exception:
+            res[r.unique_id] = None
+        r.violations = []
+        r.disable = was
+        if map_dirty(oFile, msnap) or is_dirty(oFile, snap):
+            oFile, oRules2, _ = S.build()
+            byid = {x.unique_id: x for x in oRules2.rules}
+            prime(oFile, [byid[p.unique_id] for p in preds if p.unique_id in byid])
+            snap, msnap = shallow_items(oFile), map_snapshot(oFile)
+    return res, [p.unique_id for p in preds]
+
+
+def dependent_reference(S):
+    oFile, oRules, _ = S.build()
+    subs = {}
+    for r in real_rules(oRules):
+        subs.setdefault(int(r.phase), set()).add(int(r.subphase))
+    dep, dpreds, suspects = {}, {}, []
+    for phase in sorted(subs):
+        ss = sorted(subs[phase])
+        for sub in ss[1:]:
+            fwd, preds = _run_group(S, phase, sub, "fwd")
+            rev, _ = _run_group(S, phase, sub, "rev")
+            for u, v in fwd.items():
+                dpreds[u] = preds
+                if rev.get(u, v) != v:
+                    suspects.append(u)
+                    # its own fresh objects: predecessors, then this rule only
+                    oF, oR, _ = S.build()
+                    byid = {x.unique_id: x for x in oR.rules}
+                    for pu in preds:
+                        pr = byid.get(pu)
+                        if pr is not None:
+                            pr.violations = []
+                            try:
+                                pr.analyze(oF)
+                            except Exception:
+                                pass
+                            pr.violations = []
+                    r = byid[u]
+                    r.disable = False
+                    r.violations = []
+                    try:
+                        r.analyze(oF)
+                        v = vio(r)
+                    except Exception:
+                        v = None
+                dep[u] = v
+    return dep, dpreds, suspects
+
+
 def localize(S, loc):
     """ddmin over the rules analysed before `reader` in a failing pass: smallest sequence W such
     that analysing W, then reader, on a fresh file gives a report different from `want`."""
@@ -326,7 +470,7 @@ def localize(S, loc):
         tests[0] += 1
         oFile, oRules, _ = S.build(cfg)
         byid = {r.unique_id: r for r in oRules.rules}
-        for u in W + [reader]:
+        for u in list(loc.get("preds") or []) + W + [reader]:
             r = byid.get(u)
             if r is None:
                 continue
